@@ -235,7 +235,9 @@ def run(eng, R):
         fl = eng.cfunc(p.method(H, "fill"))
         q_ok = False
         for n in ast.walk(fl.node):
-            if isinstance(n, ast.AugAssign) and self_attr(n.target) == "_unprocessed_entries" and isinstance(n.op, ast.Add):
+            if isinstance(n, ast.AugAssign) and isinstance(n.op, ast.Add) and (self_attr(n.target) == "_unprocessed_entries" or (isinstance(n.target, ast.Name) and
+                    self_attr(next((a.value for a in ast.walk(fl.node) if isinstance(a, ast.Assign) and len(a.targets) == 1 and isinstance(a.targets[0], ast.Name)
+                                    and a.targets[0].id == n.target.id), None)) == "_unprocessed_entries")):   # (the queue itself or a local that names it: `+=` on a list extends it in place)
                 v = n.value
                 if isinstance(v, ast.Name):
                     # a local that holds list(entries) (e.g. converted in a try block, added in its else branch)
@@ -244,7 +246,7 @@ def run(eng, R):
                         v = defs[0]
                 if isinstance(v, ast.Call) and common.call_name(v) == "list" and v.args and isinstance(v.args[0], ast.Name) and v.args[0].id == "entries":
                     q_ok = True
-            if isinstance(n, ast.Call) and isinstance(n.func, ast.Attribute) and n.func.attr == "extend" and self_attr(n.func.value) == "_unprocessed_entries" and n.args:
+            if isinstance(n, ast.Call) and isinstance(n.func, ast.Attribute) and n.func.attr == "extend" and self_attr(common.resolve_local(fl.node, n.func.value)) == "_unprocessed_entries" and n.args:
                 a0 = common.resolve_local(fl.node, n.args[0])
                 if isinstance(a0, ast.Call) and common.call_name(a0) == "list" and a0.args:
                     a0 = a0.args[0]
